@@ -448,6 +448,18 @@ def kcv_ob(prog, res, fi):
         src, lo, hi = f
         from .. import seqops as _s
         if _s.seq_eq_structural(it, src, ct) is not True:
+            # hexlify(ct[a:b]) is hexlify(ct)[2a:2b]: a prefix cut from the bytes before rendering
+            sd = src.segs[0].desc if len(src.segs) == 1 and isinstance(src.segs[0], Opq) else None
+            cd = ct.segs[0].desc if len(ct.segs) == 1 and isinstance(ct.segs[0], Opq) else None
+            if isinstance(sd, tuple) and len(sd) == 4 and sd[0] == 'slice' and cd is not None and sd[1] == cd and hi is None:
+                n = it.user['n'].lin
+                a, b = Lin.of(sd[2]), Lin.of(sd[3])
+                fails += need_eq0(p.store, a.scale(2) + lo, 'the key check value does not start at the first hex digit of the ciphertext')
+                end = b.scale(2)
+                if p.store.decide_eq0(end - n) is not True and p.store.decide_eq0(end - ct.length().scale(2)) is not True:
+                    fails += need_eq0(p.store, end - n, f'the key check value is the rendering of {p.store.canon(b)} ciphertext bytes: '
+                                                        f'{p.store.canon(end)} hex digits, not kvc_length')
+                return fails
             fails.append(definite(f'the rendered value is {src!r}, not the ciphertext of the zero block'))
         fails += need_eq0(p.store, lo, f'the key check value starts at hex digit {p.store.canon(lo)} of the ciphertext, not at the first')
         if hi is not None:
